@@ -57,12 +57,14 @@ type Rat struct {
 type mapEntry struct {
 	K, V    Value
 	deleted bool
+	sym     bool // key contains symbolic terms (not in idx)
 }
 
 type Map struct {
 	idx     map[string]int
 	entries []*mapEntry
 	n       int
+	nsym    int
 }
 
 func NewMap() *Map { return &Map{idx: map[string]int{}} }
